@@ -296,7 +296,7 @@ def scenario(c: Any, P: dict) -> dict:
         last_stall = len(seg) - 1 - seg[::-1].index("stall")
         last_visit = len(seg) - 1 - seg[::-1].index("visit")
         return last_visit > last_stall
-    late = [x for x in calls if x[0] > end_seq and x[1] > t0 + P["horizon"] + period + 1e-6 and fair(x)]
+    late = [x for x in calls if x[0] >= end_seq and x[1] > t0 + P["horizon"] + period + 1e-6 and fair(x)]
     if late:
         viol.append(("C35:%s:invocation-more-than-one-period-after-final-dispose" % kind, {"clocks": [x[1] - t0 for x in late]}))
     state: Any = P["init"]
@@ -315,12 +315,12 @@ def scenario(c: Any, P: dict) -> dict:
     if P["raise_at"] is not None and len(calls) > P["raise_at"]:
         viol.append(("C35:%s:invocation-after-raise" % kind, {"invocations": len(calls), "raise_at": P["raise_at"]}))
     if disposed_at[0] is not None:
-        after = [x for x in calls if x[0] > disposed_at[0][0] and x[1] > disposed_at[0][1] + period + 1e-6 and fair(x)]
+        after = [x for x in calls if x[0] >= disposed_at[0][0] and x[1] > disposed_at[0][1] + period + 1e-6 and fair(x)]
         if after:
             viol.append(("C35:%s:invocation-more-than-one-period-after-dispose" % kind, {"dispose_clock": disposed_at[0][1] - t0, "clocks": [x[1] - t0 for x in after]}))
         # rule 4: dispose() returned strictly before the tick's instant on the logical clock => that tick must not be
         # invoked (an invocation at the very instant of dispose_ret is the tolerated race)
-        later = [x for x in calls if x[0] > disposed_at[0][0] and x[1] > disposed_at[0][1] + 1e-6 and fair(x)]
+        later = [x for x in calls if x[0] >= disposed_at[0][0] and x[1] > disposed_at[0][1] + 1e-6 and fair(x)]
         if later and not after:
             viol.append(("C35:%s:invocation-after-dispose-returned-before-its-tick" % kind,
                          {"dispose_clock": disposed_at[0][1] - t0, "clocks": [x[1] - t0 for x in later]}))
